@@ -145,6 +145,28 @@ def run(chk, replay=None):
             model_exprs.append("eval_log [%s] %s" % ("; ".join(log_terms), lib.coq_list([kid[k] for k in keys])))
             inv = {v: s for s, v in vid.items()}
             model_expect.append((o, keys, inv))
+    # ---- stale leader: local routing, but client_write can no longer commit (ForwardToLeader) ----------
+    for rep in range(1 if tier == "quick" else 4):
+        o = nodescen.scenario_stale_leader(binary, rng)
+        n_eval += 1
+        nontrivial.add(("stale_leader", rep))
+        if o.get("new_leader") is None:
+            chk.notes.setdefault("inconclusive", []).append("no new leader was elected while the old one was frozen")
+            continue
+        for f in o.get("fatal", []):
+            chk.classify("storage-fatal", "the Raft core of node %s was shut down by its storage layer: %s" % (f["node"], f["line"]),
+                         {"scenario": "stale_leader", "fatal": f, "history": o["history"]})
+        probs = final_consistent(o)
+        if o["errors"] and not probs:
+            chk.notes.setdefault("inconclusive", []).append({"scenario": "stale_leader", "errors": o["errors"][:3]})
+        for p in probs:
+            chk.classify("stale-leader:%s" % p["kind"], "writes sent to a deposed leader right after it was continued: %s" % json.dumps(p)[:300],
+                         {"scenario": "stale_leader", "problem": p, "history": o["history"], "final": o["final"]})
+        chk.notes.setdefault("stale_leader_answers", []).append(
+            [[h["op"], h["status"]] for h in o["history"] if str(h.get("value", "")).startswith("stale") or (h["op"] == "del")])
+        if rep == 0:
+            samples.append({"scenario": "stale_leader", "history": o["history"][-4:]})
+
     # the two worlds the harness can force, against the model of the answer chain
     model_exprs.append("eval_answer true (mkWorld (Some RLocal) true true true Fail true true)")
     model_exprs.append("eval_answer true (mkWorld (Some RLocal) true true true Succ true true)")
